@@ -38,7 +38,23 @@ func Sites(root *Node) []Site {
 	return out
 }
 
-var EditOps = []string{"del", "dup", "empty", "evil"}
+var EditOps = []string{"del", "dup", "empty", "evil", "evilurl", "pem1"}
+
+// EvilURL is an absolute URL that net/url refuses to parse (IPv6 zone without escaping, stray percent sign).
+const EvilURL = "https://[fe80::1%eth0]:8443/saml/100%/acs"
+
+// EvilPEM is certificate text with PEM armour and no line break anywhere.
+const EvilPEM = "-----BEGIN CERTIFICATE-----MIIBszCCAVmgAwIBAgIUQ0FSRQ==-----END CERTIFICATE-----"
+
+func evilFor(op string) string {
+	switch op {
+	case "evilurl":
+		return EvilURL
+	case "pem1":
+		return EvilPEM
+	}
+	return EvilValue
+}
 
 // EvilValue is what the "evil" edit puts into an attribute value or an element's text.
 const EvilValue = "a'b[c]\"d%s%n{{.}}//*[@x='y']\\e"
@@ -89,8 +105,8 @@ func ApplyEdits(root *Node, edits []Edit) (*Node, []string) {
 				t.elem.Attrs = append(t.elem.Attrs, t.elem.Attrs[idx])
 			case "empty":
 				t.elem.Attrs[idx].Value = ""
-			case "evil":
-				t.elem.Attrs[idx].Value = EvilValue
+			case "evil", "evilurl", "pem1":
+				t.elem.Attrs[idx].Value = evilFor(t.op)
 			}
 		default:
 			p := t.elem.Parent
@@ -112,7 +128,7 @@ func ApplyEdits(root *Node, edits []Edit) (*Node, []string) {
 				}
 			case "empty":
 				t.elem.Children = nil
-			case "evil":
+			case "evil", "evilurl", "pem1":
 				// only leaf elements get hostile text; structure stays
 				leaf := true
 				for _, ch := range t.elem.Children {
@@ -121,7 +137,7 @@ func ApplyEdits(root *Node, edits []Edit) (*Node, []string) {
 					}
 				}
 				if leaf {
-					t.elem.Children = []*Child{{Kind: KindText, Text: EvilValue}}
+					t.elem.Children = []*Child{{Kind: KindText, Text: evilFor(t.op)}}
 				}
 			}
 		}
